@@ -215,7 +215,7 @@ package objects
 //@ global forall a *Allocation :: mag(a.allocatedResource)
 // wfAlloc (reported): every allocation that entered the core has non-negative resources (UpdateAllocation validates
 // StrictlyGreaterThanZero before any ledger is touched: obligation [validated] under C13)
-//@ global forall a *Allocation, t Key :: rv(a.allocatedResource, t) >= 0
+//@ global[allocnonneg] forall a *Allocation, t Key :: rv(a.allocatedResource, t) >= 0
 
 //@ spec okR(r *resources.Resource) bool = r != nil && r.Resources != nil
 //@ spec sepR(a *resources.Resource, b *resources.Resource) bool = a != b && (a == nil || b == nil || a.Resources != b.Resources)
